@@ -200,6 +200,22 @@ impl LinearAxis {
     }
 }
 
+#[cfg(opw_verif)]
+impl LinearAxis {
+    /// Verification hook: the fields are private and there is no public constructor.
+    pub fn verif_new(robot: Arc<dyn Kinematics>, axis: u32, base: Isometry3<f64>) -> Self {
+        LinearAxis { robot, axis, base }
+    }
+}
+
+#[cfg(opw_verif)]
+impl Gantry {
+    /// Verification hook: the fields are private and there is no public constructor.
+    pub fn verif_new(robot: Arc<dyn Kinematics>, base: Isometry3<f64>) -> Self {
+        Gantry { robot, base }
+    }
+}
+
 impl Gantry {
     // Compute the forward transformation including the cart's offset and the robot's kinematics
     pub fn forward(&self, translation: &Translation3<f64>, joint_angles: &[f64; 6]) -> Isometry3<f64> {
